@@ -314,6 +314,8 @@ func init() {
 		"strings.Join":                     inJoin,
 		"(*strings.Builder).WriteString":   inBuilderWrite,
 		"(*strings.Builder).String":        inBuilderString,
+		"(*strings.Builder).Write":         inBuilderWriteBytes,
+		"(*bytes.Buffer).Write":            inBuilderWriteBytes,
 		"(*bytes.Buffer).String":           inBuilderString,
 		"(*bytes.Buffer).WriteString":      inBuilderWrite,
 		"strings.Contains":                 inContains,
@@ -337,6 +339,81 @@ func init() {
 		"math.Floor":         func(ex *Exec, fn *ssa.Function, a []Value, g *Term, w string) Value { return FPOp(OpFPFloor, a[0].(*Term)) },
 		"math.Min":           func(ex *Exec, fn *ssa.Function, a []Value, g *Term, w string) Value { return FPOp(OpFPMin, a[0].(*Term), a[1].(*Term)) },
 		"math.IsNaN":         func(ex *Exec, fn *ssa.Function, a []Value, g *Term, w string) Value { return FPOp(OpFPIsNaN, a[0].(*Term)) },
+		"math.Ceil":          liftedMath1(math.Ceil),
+		"math.Trunc":         liftedMath1(math.Trunc),
+		"math.Abs":           liftedMath1(math.Abs),
+		"math.Sqrt":          liftedMath1(math.Sqrt),
+		"math.RoundToEven":   liftedMath1(math.RoundToEven),
+		"math.Log":           liftedMath1(math.Log),
+		"math.Exp":           liftedMath1(math.Exp),
+		"math.Max":           liftedMath2(math.Max),
+		"math.Mod":           liftedMath2(math.Mod),
+		"math.Float64bits": func(ex *Exec, fn *ssa.Function, a []Value, g *Term, w string) Value {
+			t := a[0].(*Term)
+			if !t.Liftable() {
+				unsupported("math.Float64bits on a symbolic float at %s", w)
+			}
+			return lift(SBV, func(cs []*Term) *Term { return BV(int64(cs[0].f)) }, t)
+		},
+		"math.Inf": func(ex *Exec, fn *ssa.Function, a []Value, g *Term, w string) Value {
+			t := a[0].(*Term)
+			if !t.Liftable() {
+				unsupported("math.Inf with symbolic sign at %s", w)
+			}
+			return lift(SFP, func(cs []*Term) *Term { return FP(math.Inf(int(cs[0].i))) }, t)
+		},
+		"strings.ToUpper":    liftedStr1(strings.ToUpper),
+		"strings.ToLower":    liftedStr1(strings.ToLower),
+		"strings.TrimSpace":  liftedStr1(strings.TrimSpace),
+		"strings.Title":      liftedStr1(strings.Title),
+		"strings.HasPrefix":  inHasPrefix,
+		"strings.HasSuffix":  inHasSuffix,
+		"strings.EqualFold":  liftedStr2Bool(strings.EqualFold),
+		"strings.TrimSuffix": liftedStr2(strings.TrimSuffix),
+		"strings.TrimLeft":   liftedStr2(strings.TrimLeft),
+		"strings.TrimRight":  liftedStr2(strings.TrimRight),
+		"strings.Trim":       liftedStr2(strings.Trim),
+		"strings.Index": func(ex *Exec, fn *ssa.Function, a []Value, g *Term, w string) Value {
+			x, y := a[0].(*Term), a[1].(*Term)
+			if allLiftable(x, y) {
+				return lift(SBV, func(cs []*Term) *Term { return BV(int64(strings.Index(cs[0].s, cs[1].s))) }, x, y)
+			}
+			return mkApp(OpInt2BV, SBV, "", IndexOf(x, y, IntC(0)))
+		},
+		"strings.Count": func(ex *Exec, fn *ssa.Function, a []Value, g *Term, w string) Value {
+			x, y := a[0].(*Term), a[1].(*Term)
+			if !allLiftable(x, y) {
+				unsupported("strings.Count on symbolic strings at %s", w)
+			}
+			return lift(SBV, func(cs []*Term) *Term { return BV(int64(strings.Count(cs[0].s, cs[1].s))) }, x, y)
+		},
+		"strings.ReplaceAll": func(ex *Exec, fn *ssa.Function, a []Value, g *Term, w string) Value {
+			x, y, z := a[0].(*Term), a[1].(*Term), a[2].(*Term)
+			if !allLiftable(x, y, z) {
+				unsupported("strings.ReplaceAll on symbolic strings at %s", w)
+			}
+			return lift(SStr, func(cs []*Term) *Term { return Str(strings.ReplaceAll(cs[0].s, cs[1].s, cs[2].s)) }, x, y, z)
+		},
+		"strconv.Atoi": func(ex *Exec, fn *ssa.Function, a []Value, g *Term, w string) Value {
+			x := a[0].(*Term)
+			if !x.Liftable() {
+				unsupported("strconv.Atoi on a symbolic string at %s", w)
+			}
+			n := lift(SBV, func(cs []*Term) *Term { v, _ := strconv.Atoi(cs[0].s); return BV(int64(v)) }, x)
+			bad := lift(SBool, func(cs []*Term) *Term { _, err := strconv.Atoi(cs[0].s); return Bool(err != nil) }, x)
+			e := &ErrVal{Nil: Not(bad), Bits: make([]*Term, len(ex.errNames))}
+			for i := range e.Bits {
+				e.Bits[i] = False
+			}
+			e.Bits[0] = bad
+			return TupleVal{n, e}
+		},
+		"(*sync.Mutex).Lock":      inNoop,
+		"(*sync.Mutex).Unlock":    inNoop,
+		"(*sync.RWMutex).Lock":    inNoop,
+		"(*sync.RWMutex).Unlock":  inNoop,
+		"(*sync.RWMutex).RLock":   inNoop,
+		"(*sync.RWMutex).RUnlock": inNoop,
 		"strconv.FormatFloat": inFormatFloat,
 		"strconv.Itoa": func(ex *Exec, fn *ssa.Function, a []Value, g *Term, w string) Value {
 			t := a[0].(*Term)
@@ -525,6 +602,20 @@ func inBuilderWrite(ex *Exec, fn *ssa.Function, args []Value, g *Term, where str
 	return TupleVal{StrLenBV(x), newErrNil(len(ex.errNames))}
 }
 
+// Write(p []byte) with an abstract byte view: the view must be exactly the data last read into its buffer
+func inBuilderWriteBytes(ex *Exec, fn *ssa.Function, args []Value, g *Term, where string) Value {
+	bv, ok := args[1].(*BytesVal)
+	if !ok {
+		unsupported("Write of %T at %s", args[1], where)
+	}
+	content := bv.Obj.cells[0].(*Term)
+	if bv.N != StrLenBV(content) {
+		// a different length than what the buffer holds: prefix of the content
+		unsupported("Write of a byte view whose length is not the length of the data last read (at %s)", where)
+	}
+	return inBuilderWrite(ex, fn, []Value{args[0], content}, g, where)
+}
+
 func inBuilderString(ex *Exec, fn *ssa.Function, args []Value, g *Term, where string) Value {
 	p := args[0].(*PtrVal)
 	var acc Value
@@ -544,6 +635,82 @@ func inBuilderString(ex *Exec, fn *ssa.Function, args []Value, g *Term, where st
 		}
 	}
 	return acc
+}
+
+func inNoop(ex *Exec, fn *ssa.Function, a []Value, g *Term, w string) Value { return nil }
+
+func liftedMath1(f func(float64) float64) intrinsic {
+	return func(ex *Exec, fn *ssa.Function, a []Value, g *Term, w string) Value {
+		t := a[0].(*Term)
+		if !t.Liftable() {
+			unsupported("%s on a symbolic float at %s", fn, w)
+		}
+		return lift(SFP, func(cs []*Term) *Term { return FP(f(cs[0].Float())) }, t)
+	}
+}
+
+func liftedMath2(f func(float64, float64) float64) intrinsic {
+	return func(ex *Exec, fn *ssa.Function, a []Value, g *Term, w string) Value {
+		x, y := a[0].(*Term), a[1].(*Term)
+		if !allLiftable(x, y) {
+			unsupported("%s on symbolic floats at %s", fn, w)
+		}
+		return lift(SFP, func(cs []*Term) *Term { return FP(f(cs[0].Float(), cs[1].Float())) }, x, y)
+	}
+}
+
+func liftedStr1(f func(string) string) intrinsic {
+	return func(ex *Exec, fn *ssa.Function, a []Value, g *Term, w string) Value {
+		t := a[0].(*Term)
+		if !t.Liftable() {
+			unsupported("%s on a symbolic string at %s", fn, w)
+		}
+		return lift(SStr, func(cs []*Term) *Term { return Str(f(cs[0].s)) }, t)
+	}
+}
+
+func liftedStr2(f func(string, string) string) intrinsic {
+	return func(ex *Exec, fn *ssa.Function, a []Value, g *Term, w string) Value {
+		x, y := a[0].(*Term), a[1].(*Term)
+		if !allLiftable(x, y) {
+			unsupported("%s on symbolic strings at %s", fn, w)
+		}
+		return lift(SStr, func(cs []*Term) *Term { return Str(f(cs[0].s, cs[1].s)) }, x, y)
+	}
+}
+
+func liftedStr2Bool(f func(string, string) bool) intrinsic {
+	return func(ex *Exec, fn *ssa.Function, a []Value, g *Term, w string) Value {
+		x, y := a[0].(*Term), a[1].(*Term)
+		if !allLiftable(x, y) {
+			unsupported("%s on symbolic strings at %s", fn, w)
+		}
+		return lift(SBool, func(cs []*Term) *Term { return Bool(f(cs[0].s, cs[1].s)) }, x, y)
+	}
+}
+
+// HasPrefix / HasSuffix: lifted natively; symbolic with a constant affix via length and substring
+func inHasPrefix(ex *Exec, fn *ssa.Function, a []Value, g *Term, w string) Value {
+	x, y := a[0].(*Term), a[1].(*Term)
+	if allLiftable(x, y) {
+		return lift(SBool, func(cs []*Term) *Term { return Bool(strings.HasPrefix(cs[0].s, cs[1].s)) }, x, y)
+	}
+	if !isStrConst(y) {
+		unsupported("strings.HasPrefix with a symbolic prefix at %s", w)
+	}
+	return Eq(Substr(x, IntC(0), IntC(int64(len(y.s)))), y)
+}
+
+func inHasSuffix(ex *Exec, fn *ssa.Function, a []Value, g *Term, w string) Value {
+	x, y := a[0].(*Term), a[1].(*Term)
+	if allLiftable(x, y) {
+		return lift(SBool, func(cs []*Term) *Term { return Bool(strings.HasSuffix(cs[0].s, cs[1].s)) }, x, y)
+	}
+	if !isStrConst(y) {
+		unsupported("strings.HasSuffix with a symbolic suffix at %s", w)
+	}
+	n := IntC(int64(len(y.s)))
+	return And(IntBin(OpIntLe, n, StrLenInt(x)), Eq(Substr(x, IntBin(OpIntSub, StrLenInt(x), n), n), y))
 }
 
 // strings.TrimPrefix(s, "/") on structured strings (used by harnesses to build v2 vectors)
@@ -676,7 +843,8 @@ func inContains(ex *Exec, fn *ssa.Function, args []Value, g *Term, where string)
 	return Not(IntBin(OpIntLt, IndexOf(a, b, IntC(0)), IntC(0)))
 }
 
-// fmt.Sprintf with %v / %s / %d verbs only.
+// fmt.Sprintf: %v / %s with Stringer support for symbolic values; any other verb (with flags,
+// width, precision) on lifted constants is formatted natively per case.
 func inSprintf(ex *Exec, fn *ssa.Function, args []Value, g *Term, where string) Value {
 	f := args[0].(*Term)
 	if !isStrConst(f) {
@@ -693,25 +861,57 @@ func inSprintf(ex *Exec, fn *ssa.Function, args []Value, g *Term, where string) 
 			break
 		}
 		parts = append(parts, Str(s[:i]))
-		if i+1 >= len(s) {
+		j := i + 1
+		for j < len(s) && strings.IndexByte("+-# 0123456789.", s[j]) >= 0 {
+			j++
+		}
+		if j >= len(s) {
 			unsupported("bad format at %s", where)
 		}
-		verb := s[i+1]
-		s = s[i+2:]
+		spec := s[i : j+1]
+		verb := s[j]
+		s = s[j+1:]
 		if verb == '%' {
 			parts = append(parts, Str("%"))
 			continue
 		}
-		if verb != 'v' && verb != 's' && verb != 'd' {
-			unsupported("format verb %%%c at %s", verb, where)
-		}
 		if ai >= len(va.Elems) {
 			unsupported("missing Sprintf argument at %s", where)
 		}
-		parts = append(parts, ex.fmtValue(va.Elems[ai], verb, g, where))
+		if (verb == 'v' || verb == 's') && len(spec) == 2 {
+			parts = append(parts, ex.fmtValue(va.Elems[ai], verb, g, where))
+		} else {
+			parts = append(parts, ex.fmtNative(va.Elems[ai], spec, where))
+		}
 		ai++
 	}
 	return Concat(parts...)
+}
+
+func (ex *Exec) fmtNative(v Value, spec string, where string) *Term {
+	iv, ok := v.(*IfaceVal)
+	if !ok {
+		unsupported("Sprintf argument %T at %s", v, where)
+	}
+	t, ok := iv.V.(*Term)
+	if !ok || !t.Liftable() {
+		unsupported("Sprintf(%q) of a symbolic or non-scalar value at %s", spec, where)
+	}
+	return lift(SStr, func(cs []*Term) *Term {
+		c := cs[0]
+		switch c.sort {
+		case SBV:
+			return Str(fmt.Sprintf(spec, c.i))
+		case SStr:
+			return Str(fmt.Sprintf(spec, c.s))
+		case SFP:
+			return Str(fmt.Sprintf(spec, c.Float()))
+		case SBool:
+			return Str(fmt.Sprintf(spec, c.b))
+		}
+		unsupported("Sprintf(%q) of sort %v at %s", spec, c.sort, where)
+		return nil
+	}, t)
 }
 
 func (ex *Exec) fmtValue(v Value, verb byte, g *Term, where string) *Term {
@@ -743,6 +943,10 @@ func (ex *Exec) fmtValue(v Value, verb byte, g *Term, where string) *Term {
 	switch t.sort {
 	case SStr:
 		return t
+	case SFP:
+		if t.Liftable() {
+			return lift(SStr, func(cs []*Term) *Term { return Str(fmt.Sprintf("%v", cs[0].Float())) }, t)
+		}
 	case SBV:
 		if t.Liftable() {
 			return lift(SStr, func(cs []*Term) *Term { return Str(strconv.FormatInt(cs[0].i, 10)) }, t)
@@ -852,8 +1056,54 @@ func inErrsWrap(ex *Exec, fn *ssa.Function, args []Value, g *Term, where string)
 
 func goPowChain(x float64, n int) float64 { return math.Pow(x, float64(n)) }
 
+// powChain: math.Pow(x, n) for a constant integer n >= 1 as the multiplication chain of Go's pow loop
+// (successive squarings, products taken in the order of the bits of n). Frexp/Ldexp scalings are exact in
+// the normal range, so the chain on the values rounds exactly like the chain on the mantissas.
+func powChain(x *Term, n int64) *Term {
+	var a *Term
+	sq := x
+	for i := n; i != 0; i >>= 1 {
+		if i&1 == 1 {
+			if a == nil {
+				a = sq
+			} else {
+				a = FPOp(OpFPMul, a, sq)
+			}
+		}
+		if i>>1 != 0 {
+			sq = FPOp(OpFPMul, sq, sq)
+		}
+	}
+	return a
+}
+
+func goPowChainNative(x float64, n int64) float64 {
+	var a float64
+	first := true
+	sq := x
+	for i := n; i != 0; i >>= 1 {
+		if i&1 == 1 {
+			if first {
+				a, first = sq, false
+			} else {
+				a = a * sq
+			}
+		}
+		if i>>1 != 0 {
+			sq = sq * sq
+		}
+	}
+	return a
+}
+
 func inPow(ex *Exec, fn *ssa.Function, args []Value, g *Term, where string) Value {
 	a, b := args[0].(*Term), args[1].(*Term)
+	if pureFP && b.op == OpConst && a.op != OpConst {
+		y := b.Float()
+		if y >= 1 && y == math.Trunc(y) && y < 64 {
+			return powChain(a, int64(y))
+		}
+	}
 	if allLiftable(a, b) {
 		return lift(SFP, func(cs []*Term) *Term { return FP(math.Pow(cs[0].Float(), cs[1].Float())) }, a, b)
 	}
@@ -882,6 +1132,22 @@ func inIOCopy(ex *Exec, fn *ssa.Function, args []Value, g *Term, where string) V
 	dst, ok := args[0].(*IfaceVal)
 	if !ok || !namedIs(dst.Typ, "bytes", "Buffer") {
 		unsupported("io.Copy to %T at %s", args[0], where)
+	}
+	if o, ok := isChunkReader(args[1]); ok {
+		// io.Copy reads until EOF, including data returned together with EOF; a failure keeps what was read before
+		c1, c2, fails := o.cells[0].(*Term), o.cells[1].(*Term), o.cells[3].(*Term)
+		if iv, ok := args[1].(*IfaceVal); ok {
+			ex.panicIf(And(g, iv.Nil), "io.Copy from nil reader at "+where)
+		}
+		written := Ite(fails, c1, Concat(c1, c2))
+		inBuilderWrite(ex, nil, []Value{dst.V, written}, g, where)
+		o.cells[4] = iteValue(g, BV(3), o.cells[4])
+		e := &ErrVal{Nil: Not(fails), Bits: make([]*Term, len(ex.errNames))}
+		for i := range e.Bits {
+			e.Bits[i] = False
+		}
+		e.Bits[0] = fails
+		return TupleVal{StrLenBV(written), e}
 	}
 	var rd *OpaqueVal
 	switch r := args[1].(type) {
